@@ -34,9 +34,12 @@ pub enum Regime {
     /// random walk on a price grid (tick = m/4, steps of -2..=2 ticks): exact ties between neighbours and
     /// across a window, new lows/highs arriving among duplicates of the old one — what quantised quotes do
     Ticks,
+    /// a level near the top of a binade (1023.99 * m) with nothing but a few ulps of noise: windows that are
+    /// flat to within rounding, where a difference of two rounded aggregates can come out with the wrong sign
+    UlpNoise,
 }
 
-pub const BAND_REGIMES: [Regime; 13] = [
+pub const BAND_REGIMES: [Regime; 14] = [
     Regime::Walk,
     Regime::AltExtremes,
     Regime::Spikes,
@@ -50,6 +53,7 @@ pub const BAND_REGIMES: [Regime; 13] = [
     Regime::BadTicks,
     Regime::QuietSpikes,
     Regime::Ticks,
+    Regime::UlpNoise,
 ];
 
 impl Regime {
@@ -138,6 +142,10 @@ impl BandGen {
                 let step = r.below(5) as f64 - 2.0;
                 self.cur = (self.cur + step * tick).clamp(lo, hi);
                 self.cur
+            }
+            Regime::UlpNoise => {
+                let level = lo * 1023.99;
+                f64::from_bits(level.to_bits() - 3 + r.below(7) as u64)
             }
             Regime::Uniform => r.uniform(lo, hi),
             Regime::Integer => lo * (1 + r.below(12)) as f64,
